@@ -135,7 +135,13 @@ def deductive(rep: Report, tier):
 
 
 # ---------------------------------------------------------------------------------------------------
+KNOWN_CLAUSES = ("U or V not unitary", "A != U S V^H", "truncated U_R or V_R columns not orthonormal", "rank-R truncation does not attain the Eckart-Young optimum")
+
+
 def check_qsvd(A4, svals_true=None, tol=1e-9, trunc=True):
+    """Every clause is evaluated and all failures are collected (facts['failures']): the known finding C05.qsvd.repeated_singular_value
+    is about the singular VECTORS in a repeated singular subspace only, so a failing case matches it only when nothing but the
+    vector clauses fails - wrong shapes or wrong singular VALUES on the same input are a different violation."""
     from .. import runtime as rt
     r = rt.real()
     m, n = A4.shape[:2]
@@ -144,45 +150,82 @@ def check_qsvd(A4, svals_true=None, tol=1e-9, trunc=True):
     U4, V4 = rt.q_to4(Uq), rt.q_to4(Vq)
     s = np.asarray(s, dtype=float)
     sv = rt.singular_values(A4) if svals_true is None else np.asarray(sorted(svals_true, reverse=True), dtype=float)
-    sc = max(1.0, float(sv[0]) if len(sv) else 1.0)
+    sc = float(sv[0]) if len(sv) and float(sv[0]) > 0 else 1.0
     # multiplicity facts (zero counted; |m - n| structural zeros belong to the zero cluster of the larger factor)
     ext = list(sv) + [0.0] * (max(m, n) - k)
     mult = 1
     for i in range(len(ext)):
         mult = max(mult, sum(1 for x in ext if abs(x - ext[i]) <= 1e-8 * sc))
-    facts = {"m": m, "n": n, "max_multiplicity": mult, "repeated": mult >= 2}
+    facts = {"m": m, "n": n, "max_multiplicity": mult, "repeated": mult >= 2, "failures": []}
+    fails = []
+
+    def fail(d):
+        fails.append(d)
+        facts["failures"].append(d["what"])
+
+    def done():
+        other = [f for f in fails if f["what"] not in KNOWN_CLAUSES]
+        return (other[0] if other else (fails[0] if fails else None)), facts
     if U4.shape[:2] != (m, m) or V4.shape[:2] != (n, n) or s.shape != (k,):
-        return {"what": "shapes", "U": U4.shape, "V": V4.shape, "s": s.shape}, facts
-    if np.any(s < -1e-12) or np.any(np.diff(s) > 1e-10 * sc):
-        return {"what": "singular values not non-negative non-increasing", "s": s}, facts
-    if not np.allclose(s, sv, atol=tol * sc):
-        return {"what": "singular values differ from the true quaternion singular values", "got": s, "want": sv}, facts
+        fail({"what": "shapes", "U": U4.shape, "V": V4.shape, "s": s.shape})
+        return done()
+    if np.any(s < -1e-12 * sc) or np.any(np.diff(s) > 1e-10 * sc):
+        fail({"what": "singular values not non-negative non-increasing", "s": s})
+    if not np.allclose(s, sv, atol=tol * sc, rtol=0):
+        fail({"what": "singular values differ from the true quaternion singular values", "got": s, "want": sv})
     eu, ev = rt.fro(rt.qmm(rt.qH(U4), U4) - rt.eye4(m)), rt.fro(rt.qmm(rt.qH(V4), V4) - rt.eye4(n))
-    if eu > tol or ev > tol:
-        return {"what": "U or V not unitary", "errU": eu, "errV": ev}, facts
+    if not (eu <= tol and ev <= tol):
+        fail({"what": "U or V not unitary", "errU": eu, "errV": ev})
     S4 = np.zeros((m, n, 4))
     for i in range(k):
         S4[i, i, 0] = s[i]
     er = rt.fro(rt.qmm(rt.qmm(U4, S4), rt.qH(V4)) - A4)
-    if er > tol * sc:
-        return {"what": "A != U S V^H", "err": er}, facts
+    if not er <= tol * sc:
+        fail({"what": "A != U S V^H", "err": er})
     if trunc:
         for R in range(1, k + 1):
             UR, sR, VR = r.qsvd.classical_qsvd(rt.q_from4(A4), R)
             UR4, VR4 = rt.q_to4(UR), rt.q_to4(VR)
-            if UR4.shape[:2] != (m, R) or VR4.shape[:2] != (n, R) or len(sR) != R:
-                return {"what": "truncated shapes", "R": R}, facts
+            sR = np.asarray(sR, dtype=float)
+            if UR4.shape[:2] != (m, R) or VR4.shape[:2] != (n, R) or sR.shape != (R,):
+                fail({"what": "truncated shapes", "R": R})
+                break
+            if not np.allclose(sR, sv[:R], atol=tol * sc, rtol=0):
+                fail({"what": "truncated singular values differ from the R largest true singular values", "R": R, "got": sR, "want": sv[:R]})
+                break
             euR, evR = rt.fro(rt.qmm(rt.qH(UR4), UR4) - rt.eye4(R)), rt.fro(rt.qmm(rt.qH(VR4), VR4) - rt.eye4(R))
             if not (euR <= tol and evR <= tol):
-                return {"what": "truncated U_R or V_R columns not orthonormal", "R": R, "errU": euR, "errV": evR}, facts
+                fail({"what": "truncated U_R or V_R columns not orthonormal", "R": R, "errU": euR, "errV": evR})
+                break
             D = np.zeros((R, R, 4))
             for i in range(R):
                 D[i, i, 0] = sR[i]
             err2 = rt.fro(rt.qmm(rt.qmm(UR4, D), rt.qH(VR4)) - A4) ** 2
             opt = float(np.sum(sv[R:] ** 2))
-            if abs(err2 - opt) > tol * sc * sc * 10:
-                return {"what": "rank-R truncation does not attain the Eckart-Young optimum", "R": R, "err2": err2, "optimum": opt}, facts
-    return None, facts
+            if not abs(err2 - opt) <= tol * sc * sc * 10:
+                fail({"what": "rank-R truncation does not attain the Eckart-Young optimum", "R": R, "err2": err2, "optimum": opt})
+                break
+    return done()
+
+
+def check_history_independence(A4, B4):
+    """The same ndarray object is overwritten in place between two calls (rank sweeps / iterative re-truncation do this): the second
+    result must be the result for the NEW contents, bit for bit what a call on a fresh copy returns."""
+    from .. import runtime as rt
+    r = rt.real()
+    k = min(A4.shape[:2])
+    for name, fn in (("classical_qsvd_full", lambda X: r.qsvd.classical_qsvd_full(X)), ("classical_qsvd", lambda X: r.qsvd.classical_qsvd(X, max(1, k - 1)))):
+        X = rt.q_from4(A4.copy())      # (q_from4 returns a view: work on a copy so that A4 itself is not overwritten)
+        fn(X)
+        X[...] = rt.q_from4(B4)
+        got = fn(X)
+        want = fn(rt.q_from4(B4))
+        for g, w, what in zip(got, want, ("U", "s", "V")):
+            g4 = rt.q_to4(g) if hasattr(g, "dtype") and g.dtype != np.float64 else np.asarray(g, dtype=float)
+            w4 = rt.q_to4(w) if hasattr(w, "dtype") and w.dtype != np.float64 else np.asarray(w, dtype=float)
+            if g4.shape != w4.shape or not np.array_equal(g4, w4):
+                return {"what": f"{name}: {what} of the second call on an array overwritten in place differs from the call on a fresh copy of the same contents"}
+    return None
 
 
 def replay_svd(seed):
@@ -227,6 +270,29 @@ def bounded(rep: Report, tier, seed):
                 b.case(f"{P}.bounded.qsvd", (m, n, name), (lambda res=res: res), f"Q-SVD of a {m}x{n} matrix with spectrum pattern {name}", facts=facts, inputs={"A": A4, "svals": sv})
     b.samples.append({"shape": [3, 3], "pattern": "all_equal (unitary)", "expected": "known finding"})
     b.done()
+    b2 = rep.add_bounded(Bounded("entry_patterns", f"shapes <= {mx}x{mx}; pure quaternions (zero real plane), single axis (only j), real, one scaled by 1e-9 / 1e9; generic spectra",
+                                 "same clauses; true singular values from the harness's complex-adjoint SVD"))
+    for m in range(1, mx + 1):
+        for n in range(1, mx + 1):
+            G = rng.standard_normal((m, n, 4))
+            pats = {"pure": G * np.array([0.0, 1.0, 1.0, 1.0]), "single_axis_j": G * np.array([0.0, 0.0, 1.0, 0.0]), "real": G * np.array([1.0, 0.0, 0.0, 0.0]),
+                    "tiny": G * 1e-9, "huge": G * 1e9}
+            for name, A4 in pats.items():
+                if tier == "quick" and name in ("tiny", "huge", "real") and (m + n) % 2:
+                    continue
+                try:
+                    res, facts = check_qsvd(A4)
+                except Exception as e:
+                    res, facts = {"exception": f"{type(e).__name__}: {e}"}, {"m": m, "n": n}
+                facts["pattern"] = name
+                b2.case(f"{P}.bounded.qsvd", (m, n, name), (lambda res=res: res), f"Q-SVD of a {m}x{n} matrix with entry pattern {name}", facts=facts, inputs={"A": A4})
+    b2.done()
+    b3 = rep.add_bounded(Bounded("call_histories", "two calls on one ndarray object overwritten in place in between; shapes 2x2, 3x2, 2x4, 4x4",
+                                 "second result identical to a call on a fresh copy (the result is a function of the argument's value)"))
+    for (m, n) in ((2, 2), (3, 2), (2, 4), (4, 4)):
+        A4, B4 = rng.standard_normal((m, n, 4)), rng.standard_normal((m, n, 4))
+        b3.case(f"{P}.bounded.call_history", (m, n), lambda A4=A4, B4=B4: check_history_independence(A4, B4), f"in-place overwrite between two Q-SVD calls, {m}x{n}", inputs={"A": A4, "B": B4})
+    b3.done()
 
 
 def run(tier, seed):
@@ -238,6 +304,8 @@ def run(tier, seed):
     ]
     rep.trusted += ["qv engine", "z3 5.1", "library model (LAPACK contract)"]
     deductive(rep, tier)
+    from ..frame import no_module_state
+    no_module_state(rep, P, [QS + "classical_qsvd", QS + "classical_qsvd_full"], replay=replay_svd)
     bounded(rep, tier, seed)
     return rep
 
